@@ -31,7 +31,13 @@ import pickle
 
 import numpy as np
 
+import warnings
+
 import common
+
+# AegeanTools/MIMAS.py itself contains '[(\\s,)]' in a non-raw string; compiling it prints a SyntaxWarning on first
+# import (it is the repository's source, not this harness) — keep the check's output clean
+warnings.filterwarnings('ignore', category=SyntaxWarning)
 
 LEVEL = 'proof'
 LEANCHECKER = True
